@@ -82,6 +82,9 @@ def check_assumptions(found, text):
             nxt = " ".join(lines[ln:ln + 3])
             m = re.search(r"\bfn\s+(\w+)", nxt)
             name = m.group(1) if m else "?"
+            if "/* delegated */" in code:
+                out.append("contract of `%s` assumed in this check (modular verification); its body is discharged by the property named under coverage.delegated_contracts" % name)
+                continue
             if name not in ALLOWED_ASSUMPTIONS["external_body"]:
                 bad.append("%s %s (line %d)" % (what, name, ln))
             out.append("external_body contract on `%s` (rule R7; backed by a complete Kani harness on the real body)" % name)
@@ -117,8 +120,12 @@ def verus_property(pid, prop, tier, seed, out, work):
     lemmas = prop.get("lemmas", [])
     if prop.get("all_functions"):
         roots = list(ex.functions)
-    fns, items = extract.cone(ex, lib, roots, lemmas)
-    text, spans = ex.render(keep_fns=fns, lib_items=items)
+    delegated = prop.get("delegated", {})
+    for k in delegated:
+        if k not in ex.functions:
+            raise extract.Undecided("delegated function %s is not in the extraction (lost anchor)" % k)
+    fns, items = extract.cone(ex, lib, roots, lemmas, stop_at=set(delegated))
+    text, spans = ex.render(keep_fns=fns, lib_items=items, delegated=set(delegated))
     gen = os.path.join(work, "tzrs_verif_%s.rs" % pid)
     open(gen, "w").write(text)
     rlimit = prop.get("rlimit", 100)
@@ -141,7 +148,7 @@ def verus_property(pid, prop, tier, seed, out, work):
         k = [kk for kk in fns if ex.functions[kk]["qual"] == name]
         con = ex.functions[k[0]]["contract"] if k else None
         if ent is None:
-            if con is not None and con.external_body:
+            if (con is not None and con.external_body) or (k and k[0] in delegated):
                 continue
             missing.append(name)
             continue
@@ -160,6 +167,7 @@ def verus_property(pid, prop, tier, seed, out, work):
     cov["functions_under_contract"] = sorted(ex.functions[k]["qual"] for k in fns if ex.functions[k]["contract"] is not None)
     cov["functions_without_contract_in_cone"] = sorted(ex.functions[k]["qual"] for k in fns if ex.functions[k]["contract"] is None)
     cov["lemmas"] = sorted(proof_names)
+    cov["delegated_contracts"] = [dict(function=ex.functions[k]["qual"], contract_assumed_here_discharged_under=v) for k, v in delegated.items() if k in fns]
     clause_counts = dict(requires=0, ensures=0, loop_specs=0, ghost_blocks=0)
     for k in fns:
         c = ex.functions[k]["contract"]
@@ -195,7 +203,7 @@ def verus_property(pid, prop, tier, seed, out, work):
     if bad:
         out.undecided.append("assumption scan found items outside the allow-list: " + "; ".join(bad))
     # vacuity canary (a): every body must fail `assert(false)` at its start
-    ctext, cspans = ex.render(keep_fns=fns, lib_items=items, canary=True)
+    ctext, cspans = ex.render(keep_fns=fns, lib_items=items, canary=True, delegated=set(delegated))
     cgen = os.path.join(work, "tzrs_canary_%s.rs" % pid)
     open(cgen, "w").write(ctext)
     cres = verus_run.run_verus(cgen, rlimit=10, fn_spans=[(a, b, n) for (a, b, n, k) in cspans])
